@@ -128,6 +128,15 @@ def run(ctx):
             if rng.random() < 0.5:
                 steps.append({"op": "write", "path": o + ".bak", "content": "keep me\n"}); scs.append(copy.deepcopy(cur))
         steps.append({"op": "write", "path": "notes.txt", "content": "unrelated\n"}); scs.append(copy.deepcopy(cur))
+        # depfiles of deps=gcc statements and response files that are still on disk (kept by -d keepdepfile / -d keeprsp,
+        # left by a failed command, or from before `deps` was added to the rule): they belong to the statement's files
+        for s in cur["stmts"]:
+            if s["kind"] != "cmd":
+                continue
+            if s["depfile"] and s["deps"] == "gcc" and rng.random() < 0.35:
+                steps.append({"op": "write", "path": s["depfile"], "content": "%s: kept.h\n" % s["outs"][0]}); scs.append(copy.deepcopy(cur))
+            if s["rsp"] and rng.random() < 0.35:
+                steps.append({"op": "write", "path": s["rsp"], "content": "kept response file\n"}); scs.append(copy.deepcopy(cur))
         mode = rng.choice(("all", "all", "targets", "targets", "rules", "dead"))
         cl = {"op": "clean", "mode": mode, "generator": rng.random() < 0.4, "dry": rng.random() < 0.25, "args": []}
         if mode == "targets":
